@@ -841,6 +841,118 @@ func (r *wireRun) orderby(doPrefix bool) {
 	}
 }
 
+
+// clientParams: the packages only a client sends for parameters - PARAMFMT(2) and PARAMS built
+// through the exported constructors and written by the library; the expected data bytes come from
+// the harness's own encoding of the Go values.
+func (r *wireRun) clientParams() {
+	r.scn()
+	wide := r.rng.Intn(2) == 0
+	type pv struct {
+		dt   asetypes.DataType
+		val  interface{}
+		data []byte
+	}
+	le16 := func(v uint16) []byte { return binary.LittleEndian.AppendUint16(nil, v) }
+	le32 := func(v uint32) []byte { return binary.LittleEndian.AppendUint32(nil, v) }
+	le64 := func(v uint64) []byte { return binary.LittleEndian.AppendUint64(nil, v) }
+	mk := func() pv {
+		switch r.rng.Intn(10) {
+		case 0:
+			v := uint8(r.rng.Intn(256))
+			return pv{asetypes.INT1, v, []byte{v}}
+		case 1:
+			v := int16(r.rng.Intn(65536) - 32768)
+			return pv{asetypes.INT2, v, le16(uint16(v))}
+		case 2:
+			v := int32(r.rng.Uint32())
+			return pv{asetypes.INT4, v, le32(uint32(v))}
+		case 3:
+			v := int64(r.rng.Uint64())
+			return pv{asetypes.INT8, v, le64(uint64(v))}
+		case 4:
+			v := r.rng.Uint32()
+			return pv{asetypes.UINT4, v, le32(v)}
+		case 5:
+			v := string(toBytes(randText(r.rng, randLen(r.rng, 255))))
+			return pv{asetypes.VARCHAR, v, []byte(v)}
+		case 6:
+			v := randBytes(r.rng, randLen(r.rng, 255))
+			return pv{asetypes.VARBINARY, v, v}
+		case 7:
+			v := randBytes(r.rng, randLen(r.rng, 3000))
+			return pv{asetypes.LONGBINARY, v, v}
+		case 8:
+			v := string(toBytes(randText(r.rng, randLen(r.rng, 3000))))
+			return pv{asetypes.LONGCHAR, v, []byte(v)}
+		default:
+			v := r.rng.Uint64()
+			return pv{asetypes.UINT8, v, le64(v)}
+		}
+	}
+	n := 1 + r.rng.Intn(4)
+	var fmts []tds.FieldFmt
+	var datas []tds.FieldData
+	cols := []map[string]interface{}{}
+	fields := []map[string]interface{}{}
+	for i := 0; i < n; i++ {
+		p := mk()
+		ff, fd, err := tds.LookupFieldFmtData(p.dt)
+		if err != nil {
+			continue
+		}
+		name := randText(r.rng, r.rng.Intn(12))
+		ff.SetName(string(toBytes(name)))
+		status := []int{0, 0x20}[r.rng.Intn(2)]
+		ff.SetStatus(uint(status))
+		ut := r.rng.Intn(100)
+		ff.SetUserType(int32(ut))
+		loc := randText(r.rng, r.rng.Intn(3))
+		ff.SetLocaleInfo(string(toBytes(loc)))
+		fd.SetValue(p.val)
+		fmts = append(fmts, ff)
+		datas = append(datas, fd)
+		c := fcol{Dt: int(p.dt), Name: name, Status: status, UserType: ut, Locale: loc, MaxLen: int(ff.MaxLength()),
+			Label: []int{}, Catalogue: []int{}, Schema: []int{}, Table: []int{}, TableName: []int{}}
+		cols = append(cols, c.ev(wide, false))
+		fields = append(fields, map[string]interface{}{"dt": int(p.dt), "colstatus": false, "status": 0, "data": ints(p.data), "txtptr": []int{}, "ts": []int{}})
+	}
+	fpkg := tds.NewParamFmtPackage(wide, fmts...)
+	kind := "PARAMFMT"
+	if wide {
+		kind = "PARAMFMT2"
+	}
+	wb, wst := writeBytes(fpkg)
+	f := map[string]interface{}{"cols": cols}
+	ev := Ev{"ev": "Pkg", "kind": kind, "f": f, "w": wst, "wbytes": ints(wb), "h": false, "hbytes": []int{}, "r": "none", "rf": f, "consumed": 0}
+	var back tds.Package
+	if wst == "ok" && len(wb) > 1 {
+		back, _ = tds.LookupPackage(tds.Token(wb[0]))
+		st, consumed := readPkg(back, wb[1:])
+		ev["r"], ev["consumed"] = st, consumed
+		if st == "ok" {
+			ev["rf"] = map[string]interface{}{"cols": colsOf(back.(*tds.ParamFmtPackage).Fmts, wide, false)}
+		}
+	}
+	r.tr.Emit(ev)
+	// PARAMS: written behind its format (the channel passes the previous package to LastPkg)
+	ppkg := tds.NewParamsPackage(datas...)
+	if err := ppkg.LastPkg(fpkg); err != nil {
+		return
+	}
+	pb, pst := writeBytes(ppkg)
+	pf := map[string]interface{}{"fields": fields}
+	pev := Ev{"ev": "Pkg", "kind": "PARAMS", "f": pf, "w": pst, "wbytes": ints(pb), "h": false, "hbytes": []int{}, "r": "none", "rf": pf, "consumed": 0}
+	if pst == "ok" && len(pb) > 1 && back != nil {
+		rp, _ := tds.LookupPackage(tds.TDS_PARAMS)
+		if err := rp.(tds.LastPkgAcceptor).LastPkg(back); err == nil {
+			st, consumed := readPkg(rp, pb[1:])
+			pev["r"], pev["consumed"] = st, consumed
+		}
+	}
+	r.tr.Emit(pev)
+}
+
 // loginRecord: the fixed-layout login record for every field length 0..31
 func (r *wireRun) loginRecord(enc bool) {
 	r.scn()
@@ -952,6 +1064,9 @@ func wireMain(args []string) error {
 		}
 		for i := 0; i < *count*2; i++ {
 			r.loginRecord(i%2 == 0)
+		}
+		for i := 0; i < *count*3; i++ {
+			r.clientParams()
 		}
 	}
 	if *mut > 0 {
